@@ -3,6 +3,7 @@ package sim
 import (
 	"encoding/json"
 	"fmt"
+	"github.com/woodsbury/decimal128"
 	"math"
 	"math/big"
 	"strings"
@@ -356,6 +357,8 @@ func (g *Gen) jsonToken() string {
 		return jsonGarbage[g.R.N(len(jsonGarbage))]
 	case 3:
 		return g.Literal(false)
+	case 4:
+		return g.LookAlike()
 	}
 	return g.jsonNumberLit()
 }
@@ -424,8 +427,19 @@ func (g *Gen) composeArgs() ([]int64, []string) {
 		c := g.coef()
 		coef = c.Bytes()
 		exp = []int64{math.MinInt32, math.MaxInt32, -6177, -6176, 6111, 6112, 6146, 6147, -6211, -6212}[g.R.N(10)]
+	case 7: // long and just not representable: a multiple of 10^k disturbed by one lower digit
+		c := g.coef()
+		k := g.R.Range(20, 400)
+		c.Mul(c, pow10big(k))
+		c.Add(c, new(big.Int).Mul(big.NewInt(int64(g.R.Range(1, 9))), pow10big(g.R.N(k))))
+		coef = c.Bytes()
+		exp = int64(g.R.Range(-6176-k-2, 6111-k+2))
 	case 5: // arbitrary bytes
-		coef = make([]byte, g.R.Range(1, 40))
+		n := g.R.Range(1, 40)
+		if g.R.P(1, 4) {
+			n = g.R.Range(41, 300)
+		}
+		coef = make([]byte, n)
 		for i := range coef {
 			coef[i] = byte(g.R.N(256))
 		}
@@ -557,6 +571,7 @@ func sortPre(p []Preempt) {
 func GenerateFocus(prof *Profile, seed, run uint64, kinds []string) (*Program, *Gen) {
 	g := &Gen{R: NewRng(seed, run, prof.Name+"/focus"), focus: true}
 	p := &Program{Profile: prof.Name, Seed: seed, Run: run}
+	stampSeams(p)
 	g.sharedPool(p, 2000)
 	// sweep operands
 	n := g.R.Range(8, 14)
@@ -660,6 +675,7 @@ func GenerateFocus(prof *Profile, seed, run uint64, kinds []string) (*Program, *
 func Generate(prof *Profile, seed, run uint64) (*Program, *Gen) {
 	g := &Gen{R: NewRng(seed, run, prof.Name)}
 	p := &Program{Profile: prof.Name, Seed: seed, Run: run}
+	stampSeams(p)
 	g.heavy = g.R.P(1, 40)
 	nd := g.R.Range(2, 6)
 	for i := 0; i < nd; i++ {
@@ -907,4 +923,20 @@ func (g *Gen) cohortMember(lit string) string {
 		return Hex(DecOf(n))
 	}
 	return Hex(DecOf(ref.Num{Neg: n.Neg, Coef: c, Exp: e}))
+}
+
+// ProcessHashKey is the VERIF_HASHKEY of this process (set by the worker
+// before the first call into the library).
+var ProcessHashKey uint64
+
+// stampSeams records what the stand-ins for randomness and time depend on.
+// Nothing is drawn from the generator's PRNG, so programs for trees that use
+// neither (the pinned tree) are unchanged.
+func stampSeams(p *Program) {
+	if len(decimal128.VerifShims) > 0 {
+		p.HashKey = ProcessHashKey
+	}
+	if decimal128.VerifClockSites > 0 && p.Run%3 != 0 {
+		p.ClockSeed = (p.Seed+1)*0x9e3779b97f4a7c15 ^ (p.Run+1)*0xbf58476d1ce4e5b9 | 1
+	}
 }
